@@ -1064,7 +1064,9 @@ class Engine:
             key = f"{f.f_code.co_filename.split('/')[-1]}:{f.f_lineno}" if f else "?"
             self.profile[key] = self.profile.get(key, 0) + 1
         if k < len(self._prefix):
-            d = self._prefix[k]
+            d, fp = self._prefix[k]
+            if fp != hash(t.sexpr()):
+                raise Inconclusive("re-execution is not deterministic: decision %d differs from the recorded one (%s)" % (k, str(t)[:200]))
             m = self._model
             if m is not None:
                 v = m.eval(t, model_completion=True)
@@ -1086,7 +1088,7 @@ class Engine:
                 can_f, mf = self._check([z3.Not(t)])
             if can_t and can_f:
                 d = True
-                self._todo.append(self._prefix_now() + [False])
+                self._todo.append(self._prefix_now() + [(False, hash(t.sexpr()))])
             elif can_t:
                 d = True
             elif can_f:
@@ -1095,7 +1097,7 @@ class Engine:
                 raise PathAbort()
             m = mt if d else mf
         self._model = m
-        self._decisions.append(d)
+        self._decisions.append((d, hash(t.sexpr())))
         c = t if d else z3.Not(t)
         self._solver_assertions.append(c)
         self._pc.append(c)
